@@ -432,6 +432,17 @@ func (e *Env) RunTsh(spec *simrt.WorldSpec, bin string) (*TshResult, error) {
 	cmd.Dir = filepath.Join(e.Dir, "io")
 	var se bytes.Buffer
 	cmd.Stderr = &limitedWriter{w: &se, n: 1 << 14}
+	if spec.StdoutClosed {
+		// standard output is the write end of a pipe nobody reads any more: a write to it is EPIPE,
+		// which the Go runtime turns into SIGPIPE for descriptors 1 and 2
+		pr, pw, perr := os.Pipe()
+		if perr != nil {
+			return nil, machinery("pipe: %v", perr)
+		}
+		pr.Close()
+		cmd.Stdout = pw
+		defer pw.Close()
+	}
 	e.procs.Add(1)
 	runErr := cmd.Run()
 	if ctx.Err() != nil {
